@@ -499,9 +499,18 @@ func (w *world) evDeadLateRace(i, j int) {
 	fmt.Fprintf(w.w, "ev laterace %s %s\n", w.id(w.hash[i]), w.id(w.hash[j]))
 	w.evc++
 	done2 := make(chan struct{})
+	began := make(chan struct{})
 	r := w.rt[i]
-	go func() { r.Vf18RibUpdateNs(ns); close(done2) }()
-	spin(3000) // the update has started: it is waiting for the lock (or has read what it reads before locking)
+	go func() { close(began); r.Vf18RibUpdateNs(ns); close(done2) }()
+	for k := 0; k < 5000000; k++ { // the goroutine is really running (also on a loaded machine) ...
+		select {
+		case <-began:
+			k = 5000000
+		default:
+			runtime.Gosched()
+		}
+	}
+	spin(20000) // ... and has started the update: it is waiting for the lock (or has read what it reads before locking)
 	wait := func(done chan struct{}) bool {
 		for k := 0; k < 2000000; k++ {
 			q.Vf18DrainAll()
@@ -558,8 +567,17 @@ func (w *world) evOvertake(i, j int) {
 	r := w.rt[i]
 	r.Vf18Lock()
 	done := make(chan struct{})
-	go func() { r.Vf18RibUpdateNs(ns); close(done) }()
-	spin(3000)
+	began := make(chan struct{})
+	go func() { close(began); r.Vf18RibUpdateNs(ns); close(done) }()
+	for k := 0; k < 5000000; k++ {
+		select {
+		case <-began:
+			k = 5000000
+		default:
+			runtime.Gosched()
+		}
+	}
+	spin(20000)
 	ns.Advert = b.adv
 	r.Vf18Unlock()
 	ok := false
@@ -1596,6 +1614,7 @@ func TestTrace(t *testing.T) {
 			fails = append(fails, fmt.Sprintf("case %d: %s", k, msg))
 			fmt.Fprintf(out, "harnessfail %d %s\n", k, msg)
 		}
+		out.Flush() // a run cut short by the wall clock keeps its completed cases
 		k++
 	}
 	if os.Getenv("VERIF_GRAPH") == "" {
